@@ -8,4 +8,4 @@ CONSTANTS
     TrackHist = FALSE
     MaxLen = 0
 INVARIANT TypeOK
-INVARIANT ModesAgree
+PROPERTY ObserversNeutral
